@@ -131,7 +131,8 @@ NUM_POOLS = {
     "large": [10 ** 12, 10 ** 12 + 1, -10 ** 12, 2 ** 40, 2 ** 40 + 2 ** 20, 65535, 65536, 255, 256, 0, 2.5e11, 1e12 + 0.5],
     "tiny": [1e-10, 2e-10, 1e-10 * (1 + 1e-9), -1e-10, 0.0, 1.0, 1e-300],
     "near_equal": [1.0, 1.0 + 1e-12, 1.0 - 1e-12, 1e6, 1e6 * (1 + 1e-13), 0.1 + 0.2, 0.3, 3],
-    "extreme": [127, 128, -128, -129, 32767, 32768, 2 ** 31 - 1, 2 ** 31, -2 ** 31, 2 ** 53, -1, 0, 200, -56, 40000, -25536, 1.5],
+    "extreme": [127, 128, -128, -129, 32767, 32768, 2 ** 31 - 1, 2 ** 31, -2 ** 31, 2 ** 53, 2 ** 53 + 1, -1, 0, 200, -56, 40000,
+                -25536, 1.5],
 }
 LAYOUTS = ["contiguous"] * 8 + ["strided", "reversed", "readonly", "fortran", "broadcast"]
 
@@ -846,7 +847,8 @@ def group_query(ctx, b, desc, adj, phase, s, sel, rng):
             if not exp_set and got[0] == "incompatible":
                 ctx.count("eval_group_expected_incompatible")
                 continue
-            if _graph_has(desc, lambda c: c["dtype"] == "object" or c.get("storage") == "dask"):
+            if _graph_has(desc, lambda c: c["dtype"] == "object" or c.get("storage") == "dask") or \
+                    any(edge_lossy(desc, e_) for e_ in desc["edges"]):
                 ctx.count("group_mismatch_on_graph_with_object_or_dask_key_not_reported")
                 continue
             ctx.violation({"kind": "subset_group_mask_mismatch", "where": where, "got": got[0], "phase": phase,
@@ -883,6 +885,8 @@ def sanitize_columns(desc):
                 c["storage"] = "numpy"
             if desc["topology"] == "cycle" and c["dtype"] == "object":
                 c["dtype"] = "<U3"
+            if desc["topology"] == "cycle" and not is_str(c) and np.dtype(c["dtype"]).kind in "iu":
+                c["values"] = [v if abs(v) <= 2 ** 53 else 3 for v in c["values"]]   # no lossy int/float pairs on cycles
 
 
 def rejoin(ctx, b, desc, ei, rng):
@@ -1040,6 +1044,33 @@ def fault_query(ctx, b, desc, base_sig, fp, detail, s, sel, t, view, paths):
                       detail(observed=got, join_free=own))
 
 
+def lossy_pair(ca, cb):
+    """the two key columns hold a pair of numbers that differ by value but are equal after numpy's promotion of both
+    columns to float64 (an integer beyond +-2**53 against a float column, or uint64 against a signed integer column)"""
+    if is_str(ca) or is_str(cb):
+        return False
+    da, db = np.dtype(ca["dtype"]), np.dtype(cb["dtype"])
+    if np.result_type(da, db).kind != "f":
+        return False
+    ua, ub = set(ca["values"]), set(cb["values"])
+    big = [v for v in ua | ub if isinstance(v, int) and abs(v) > 2 ** 53]
+    if not big:
+        return False
+    return any(x != y and float(x) == float(y) for x in ua for y in ub)
+
+
+def edge_lossy(desc, e):
+    ca = [desc["tables"][e["a"]]["cols"][n] for n in e["cols_a"]]
+    cb = [desc["tables"][e["b"]]["cols"][n] for n in e["cols_b"]]
+    if len(ca) == len(cb):
+        pairs = list(zip(ca, cb))
+    elif len(ca) == 1:
+        pairs = [(ca[0], x) for x in cb]
+    else:
+        pairs = [(x, cb[0]) for x in ca]
+    return any(lossy_pair(x, y) for x, y in pairs)
+
+
 def _edge_has(desc, e, pred):
     return any(pred(desc["tables"][side]["cols"][c]) for side, names in ((e["a"], e["cols_a"]), (e["b"], e["cols_b"]))
                for c in names)
@@ -1133,6 +1164,9 @@ def one_query(ctx, b, desc, adj, cyclic, phase, s, sel, t, vkind, rng):
     hshape = edge_shape_from(desc, hop_edge, t)
     hclass = desc["edges"][hop_edge]["dtype_pair"]
     ctx.count("eval_mask")
+    if len(paths) == 1 and edge_lossy(desc, desc["edges"][hop_edge]):
+        ctx.count("eval_int_above_2p53_compared_with_float_column")
+        ctx.count("eval_int_above_2p53_compared_with_float_column:" + hshape)
     if hclass.startswith("mixed_columns"):
         ctx.count("eval_mixed_columns")
         ctx.count("eval_mixed_columns:%s:%s" % (hclass.split(":")[1], hshape))
@@ -1210,7 +1244,7 @@ def one_query(ctx, b, desc, adj, cyclic, phase, s, sel, t, vkind, rng):
                selection=sel_class(src_mask), str_key=str_key, scalar_view=np.ndim(expected_view(exp_set[0])) == 0,
                neg_int_key=_neg_int_key(desc, e), object_key=_edge_has(desc, e, lambda c: c["dtype"] == "object"),
                dask_key=_edge_has(desc, e, lambda c: c.get("storage") == "dask"),
-               upstream_mask_container=upstream_container,
+               upstream_mask_container=upstream_container, int_above_2p53_vs_float=edge_lossy(desc, e),
                upstream_single_row=len(first) >= 2 and len(desc["tables"][nxt]["v"]) == 1)
     if got[0] == "mask":
         ev = expected_view(exp)
